@@ -7,6 +7,7 @@
 -/
 import Model.Wait
 import Model.Proto.ReqWake
+import Model.Proto.ReqDue
 namespace Props.C18
 open Model Model.Wait
 
@@ -232,5 +233,22 @@ theorem req_recv_deadline_wakes_pending_send (s : Proto.Req.State) (evs : List (
   show (Proto.Req.getCtx { s with parkedRecv := _ } p.ctx).isSome = true
   have : Proto.Req.getCtx { s with parkedRecv := s.parkedRecv.map (fun q => if q.call == p.call then { q with expired := true, deadline := none } else q) } p.ctx = Proto.Req.getCtx s p.ctx := rfl
   rw [this, hx]; rfl
+
+/-- REQ, over all histories: a Send that is still parked is still wanted — it is the call whose message its context is
+    trying to transmit (pending, carrying this call's request number, not abandoned by a cancel), on an open context,
+    not expired.  No reachable state has a Send asleep that no event will wake (D17 was such a state). -/
+theorem req_parked_send_is_still_wanted (s : Proto.Req.State) (hs : Proto.Req.Reach s) :
+    ∀ p ∈ s.parkedSend, ∃ x, Proto.Req.getCtx s p.ctx = some x ∧ x.sendMsg.isSome = true ∧ x.sendFor = p.rid ∧
+      x.sendAbort = false ∧ x.closed = false ∧ p.expired = false :=
+  fun p hp => (Proto.Req.reach_N s hs).ok p hp (by simp)
+
+/-- REQ, over all histories and all timings: a Send deadline overdue by more than the slack has been delivered — the
+    call is parked in no outcome of the timer processing, whichever Recv deadlines and retry timers fire in the same
+    instant and in whatever order ("never hanging beyond it", for the one protocol whose blocked calls share state) -/
+theorem req_overdue_send_deadline_is_delivered (s : Proto.Req.State) (hs : Proto.Req.Reach s) (now : Nat)
+    (p : Proto.Req.Parked) (hp : p ∈ s.parkedSend) (t : Proto.Req.Timer) (hd : p.deadline = some t)
+    (hdue : t.tmax + t.period + Proto.Req.slack ≤ now) :
+    ∀ st ∈ Proto.Req.timerOutcomes s now, ∀ q ∈ st.1.parkedSend, q.call ≠ p.call :=
+  Proto.Req.overdue_send_is_woken s hs now p hp t hd hdue
 
 end Props.C18
